@@ -36,6 +36,8 @@ PROBES = ["ran_to_completion", "forced_cleanup_deleted_preexisting", "refused_wi
           "identical_paths", "via_symlink", "default_name_coincidence", "symlink_in_input", "file_input", "multi_input",
           "fault_crash", "fault_eio_copy", "fault_enospc_write", "fault_eacces_mkdir", "second_run_on_residue", "copied_files",
           "relative_workspace", "default_workspace", "input_via_symlinked_ancestor", "cwd_contains_default_name"]
+# the same check again, smaller, in interpreters started with assertions stripped (python -O / PYTHONOPTIMIZE=1)
+ENV_VARIANTS = [{"name": "python-O", "env": {"PYTHONOPTIMIZE": "1"}, "runs": {'quick': 250, 'thorough': 2500}}]
 TIERS = {
     "quick": {"runs": 2400, "budget_s": 300, "chunk": 25, "selftest": 50, "per_run_timeout": 300},
     "thorough": {"runs": 0, "budget_s": 1500, "chunk": 50, "selftest": 100, "per_run_timeout": 300},
